@@ -244,7 +244,7 @@ pub fn run(tier: Tier) -> i32 {
     run.stage("i128_shifted_div_mod_floor", json!({"divisors":ms.len(),"k":"0..=38","quotient_targets":qts.len()}));
 
     // (3) rounded kernels on the same constructions, 8 modes (explicit and thread default)
-    let qs = pairs::quotients(if deep { alpha::Level::Thorough } else { alpha::Level::Quick });
+    let qs = pairs::quotients(if deep { alpha::Level::Thorough } else { alpha::Level::Mid });
     let ks: Vec<u8> = (1..=38).collect();
     for mode in ALL_MODES {
         run.par_for(&ks, || RoundingMode::set_default(mode), |&k, l| {
@@ -258,7 +258,7 @@ pub fn run(tier: Tier) -> i32 {
             }
         });
         run.par_for(&mk, || RoundingMode::set_default(mode), |&(m, k), l| {
-            if !deep && (k % 3 != 0 && k != 38 && k != 1) { return; }
+            if !deep && (k % 2 != 0 && k != 38 && k != 1) { return; }
             let mut xs = Vec::new();
             pairs::frontier_div_round(m, k as u32, 0, &qs[..qs.len().min(if deep { 400 } else { 48 })], &mut xs);
             xs.sort(); xs.dedup();
